@@ -286,6 +286,161 @@ def exec (cfg : Cfg) (s : St) (ops : List Op) : St := ops.foldl (step1 cfg) s
 def init (cfg : Cfg) : St :=
   { struct := cfg.members.map (fun m => (m, 0)), mem := cfg.members.map (fun m => (m, 0)) }
 
+/-! ### overlapping operations (several threads; repaired code: the guard counter `insideRW` is kept per thread)
+
+Every `announceUpdate` runs under `updateLock`, callbacks included; every read_/write_ wrapper runs under `accessLock`.
+So at most one wrapped access is in progress at a time, and what can get in between its steps are the driver-side
+assignments of other threads (`self.<struct> = d`, `self.<member> = x`: `updateLock` only), each a complete update with all
+its callbacks.  The callbacks of such an assignment consult the guard counter of THEIR thread (0), not the one of the thread
+inside the access, so they are not suppressed.  Reads of the cache outside `updateLock` (a member without `read_<m>` in the
+loop of the generated `read_<struct>`) may see a state in the middle of another thread's update: an oracle (`seen`).
+-/
+
+/-- what another thread does while an access is in progress -/
+inductive AOp
+  | assignStruct (v : Dict)
+  | assignMember (m : String) (v : Val)
+  deriving Repr, DecidableEq, Inhabited
+
+def astep (cfg : Cfg) (s : St) : AOp → St
+  | .assignStruct v => assignStruct cfg v s
+  | .assignMember m v => if cfg.members.contains m then announceMember cfg m v s else s
+
+def interrupt (cfg : Cfg) (ops : List AOp) (s : St) : St := ops.foldl (astep cfg) s
+
+/-- where the assignments of other threads fall during one generated `read_<struct>` / `write_<struct>` of the per-member
+layout (every position between two acquisitions of `updateLock` by the accessing thread) -/
+structure Overlap where
+  before : String → List AOp := fun _ => []   -- before member `m` is treated (before its update; for a member without `read_<m>`: before its cache read)
+  seen : String → Option Val := fun _ => none -- what the cache read of a member without `read_<m>` sees (`none`: the state the model has reached)
+  atEnd : List AOp := []                      -- after the loop, before `finally` reads the struct / before the result is announced
+  afterRead : List AOp := []                  -- between `getattr(self, <struct>)` in `finally` and the update with the merged value
+  beforeErr : List AOp := []                  -- before the read wrapper announces the error
+
+def readIterO (cfg : Cfg) (r : String → RRes Val) (ov : Overlap) (l : Loop) (m : String) : Loop :=
+  if l.stop then l else
+  let s1 := interrupt cfg (ov.before m) l.st
+  if cfg.hasR m then
+    match r m with
+    | .fail k => { l with st := memberError m s1, stop := true, exc := some k }
+    | .ok x => { l with st := announceMemberIn cfg m x s1, result := l.result ++ [(m, x)] }
+  else
+    match (ov.seen m).orElse (fun _ => s1.mem.lookup m) with
+    | none => { l with st := s1, stop := true }
+    | some x => { l with st := s1, result := l.result ++ [(m, x)] }
+
+def writeIterO (cfg : Cfg) (v : Dict) (w : String → WRes Val) (ov : Overlap) (l : Loop) (m : String) : Loop :=
+  if l.stop then l else
+  let s1 := interrupt cfg (ov.before m) l.st
+  match v.lookup m with
+  | none => { l with st := s1, stop := true }
+  | some req =>
+    if cfg.hasW m then
+      match w m with
+      | .fail k => { l with st := s1, stop := true, exc := some k }
+      | .retNone => { l with st := announceMemberIn cfg m req s1, result := l.result ++ [(m, req)] }
+      | .ret x => { l with st := announceMemberIn cfg m x s1, result := l.result ++ [(m, x)] }
+    else { l with st := announceMemberIn cfg m req s1, result := l.result ++ [(m, req)] }
+
+def finishLoopO (cfg : Cfg) (isRead : Bool) (ov : Overlap) (l : Loop) : St :=
+  let s1 := interrupt cfg ov.atEnd l.st
+  let s2 := interrupt cfg ov.afterRead s1
+  if l.result.length < cfg.members.length then
+    failedExc l.exc (loopError isRead (interrupt cfg ov.beforeErr (assignStruct cfg (Dict.merge s1.struct l.result) s2)))
+  else if wf cfg l.result then fine (announceStruct cfg l.result s2)
+  else failed (loopError isRead (interrupt cfg ov.beforeErr s2))
+
+def readStructO (cfg : Cfg) (r : String → RRes Val) (ov : Overlap) (s : St) : St :=
+  finishLoopO cfg true ov (cfg.members.foldl (readIterO cfg r ov) { st := s })
+
+def writeStructO (cfg : Cfg) (v : Dict) (w : String → WRes Val) (ov : Overlap) (s : St) : St :=
+  if !wf cfg v then failed s else
+  finishLoopO cfg false ov (cfg.members.foldl (writeIterO cfg v w ov) { st := s })
+
+/-! the generated member methods of the combined layout are several steps (updates under `updateLock`, reads of the cache
+outside it); `iv`: what other threads do before step 0, 1, … of the access.  The values handed on are the RETURNED ones, not
+what the cache holds when the next step begins. -/
+
+def ivAt (iv : List (List AOp)) (k : Nat) : List AOp := iv.getD k []
+
+/-- generated `read_<m>` (`read_<struct>()[m]`), steps `k` (the update by `read_<struct>`, or the read of the cached struct
+when the programmer wrote only `write_<struct>`) and `k + 1` (the update of the member) → (state, value returned) -/
+def readMemberAV (cfg : Cfg) (m : String) (r : RRes Dict) (iv : List (List AOp)) (k : Nat) (s : St) : St × Option Val :=
+  let s1 := readStructC cfg r (interrupt cfg (ivAt iv k) s)
+  let s2 := interrupt cfg (ivAt iv (k + 1)) s1
+  if !s1.ok then (memberError m s2, none) else
+  let ret := if cfg.hasRS then (match r with | .ok d => d.lookup m | .fail _ => none) else s1.struct.lookup m
+  match ret with
+  | none => (failed (memberError m s2), none)
+  | some x => (fine (announceMember cfg m x s2), some x)
+
+/-- programmer-written `read_<m>`, step `k` → (state, value returned) -/
+def readMemberBV (cfg : Cfg) (m : String) (rB : RRes Val) (iv : List (List AOp)) (k : Nat) (s : St) : St × Option Val :=
+  let s0 := interrupt cfg (ivAt iv k) s
+  match rB with
+  | .fail e => (failedExc (some e) (memberError m s0), none)
+  | .ok x => (fine (announceMember cfg m x s0), some x)
+
+/-- generated `write_<m>(v)`: step 0 the read of the cached struct, 1 the update by `write_<struct>`, 2… `read_<m>`, last the
+update of the member with the value `read_<m>` returned -/
+def writeMemberAO (cfg : Cfg) (m : String) (v : Val) (w : WRes Dict) (r : RRes Dict) (rB : RRes Val) (iv : List (List AOp))
+    (s : St) : St :=
+  let sa := interrupt cfg (ivAt iv 0) s
+  let s1 := writeStructC cfg (sa.struct.set m v) w (interrupt cfg (ivAt iv 1) sa)
+  if !s1.ok then s1 else
+  let sr := if cfg.hasR m then readMemberBV cfg m rB iv 2 s1 else readMemberAV cfg m r iv 2 s1
+  if !sr.1.ok then sr.1 else
+  match sr.2 with
+  | none => failed sr.1
+  | some x => fine (announceMember cfg m x (interrupt cfg (ivAt iv (if cfg.hasR m then 3 else 4)) sr.1))
+
+/-- histories in which accesses overlap with assignments of other threads -/
+inductive OOp
+  | seq (op : Op)                                                                   -- an operation nothing gets into
+  | readStructO (rA : RRes Dict) (rB : String → RRes Val) (ov : Overlap)
+  | writeStructO (v : Dict) (wA : WRes Dict) (wB : String → WRes Val) (ov : Overlap)
+  | readMemberO (m : String) (rA : RRes Dict) (iv : List (List AOp))              -- generated member methods of the combined layout
+  | writeMemberO (m : String) (v : Val) (wA : WRes Dict) (rA : RRes Dict) (rB : RRes Val) (iv : List (List AOp))
+
+/-- in the combined layout `read_<struct>` / `write_<struct>` are one update: whatever other threads do comes before it -/
+def ostep (cfg : Cfg) (s : St) : OOp → St
+  | .seq op => step cfg s op
+  | .readStructO rA rB ov =>
+    if cfg.combined then readStructC cfg rA (interrupt cfg (ov.atEnd ++ ov.afterRead) s) else readStructO cfg rB ov s
+  | .writeStructO v wA wB ov =>
+    if cfg.combined then writeStructC cfg v wA (interrupt cfg (ov.atEnd ++ ov.afterRead) s) else writeStructO cfg v wB ov s
+  | .readMemberO m rA iv =>
+    if cfg.members.contains m && cfg.combined && !cfg.hasR m then (readMemberAV cfg m rA iv 0 s).1 else failed s
+  | .writeMemberO m v wA rA rB iv =>
+    if cfg.members.contains m && cfg.combined && !cfg.hasW m then writeMemberAO cfg m v wA rA rB iv s else failed s
+
+def ostep1 (cfg : Cfg) (s : St) (op : OOp) : St := ostep cfg { s with evs := [], exc := none } op
+def orun (cfg : Cfg) (s : St) (ops : List OOp) : List St := Frappy.Scan.scan (ostep1 cfg) s ops
+def oexec (cfg : Cfg) (s : St) (ops : List OOp) : St := ops.foldl (ostep1 cfg) s
+
+/-! ### the guard counter as it was before `fix:` 8a147a3: one integer for all threads, `insideRW += 1` = load, store
+
+A thread inside an access runs `enter` (load, store +1) … `leave` (load, store −1); the interpreter may switch threads between
+the load and the store.  `CStep t a`: thread `t` performs `a`. -/
+inductive CAct
+  | load                      -- LOAD_ATTR insideRW
+  | storeInc                  -- STORE_ATTR insideRW (loaded value + 1)
+  | storeDec                  -- STORE_ATTR insideRW (loaded value − 1)
+  deriving Repr, DecidableEq, Inhabited
+
+structure CSt where
+  counter : Int := 0
+  loaded : Nat → Int := fun _ => 0    -- per thread: the value on its stack
+
+def cstep (s : CSt) (ta : Nat × CAct) : CSt :=
+  match ta.2 with
+  | .load => { s with loaded := fun t => if t = ta.1 then s.counter else s.loaded t }
+  | .storeInc => { s with counter := s.loaded ta.1 + 1 }
+  | .storeDec => { s with counter := s.loaded ta.1 - 1 }
+
+/-- the actions of one thread entering and leaving once -/
+def enterLeave : List CAct := [.load, .storeInc, .load, .storeDec]
+
 /-! ## FloatEnumParam (extparams.py:178-310)
 
     write_<name>(value):  write_<idx>(min(vdict, key=lambda i: abs(vdict[i] - value))); return getattr(mobj, name)
